@@ -43,3 +43,27 @@ package PVM
 //@   ensures outcome: result.ReasonOrBytes == PANIC || result.ReasonOrBytes == OUT_OF_GAS || result.ReasonOrBytes == nil || isbytes(result.ReasonOrBytes)
 //@   assigns everything
 //@   opt inlinecalls=R,NewHost
+
+// ---- C10: checkpoint = deep copy of the regular context; nothing reachable from the copy is shared with x ----
+//@ pred c10_own(a) = fresh(a.LookupDict) && fresh(a.StorageDict) && allkeys(lk, a.LookupDict, fresh(a.LookupDict[lk])) && allkeys(sk, a.StorageDict, fresh(a.StorageDict[sk]))
+//@ func (*ResultContext).DeepCopy
+//@   props C10
+//@   requires nonnil: origin != nil && origin.StorageKeyVal != nil
+//@   requires valid: forall(i, 0, len(*origin.StorageKeyVal), allocated((*origin.StorageKeyVal)[i].Value))
+//@   ensures ids: result.ServiceID == origin.ServiceID && result.ImportServiceID == origin.ImportServiceID
+//@   ensures transfers: len(result.DeferredTransfers) == len(origin.DeferredTransfers) && (fresh(result.DeferredTransfers) || len(origin.DeferredTransfers) == 0) && forall(i, 0, len(origin.DeferredTransfers), result.DeferredTransfers[i] == origin.DeferredTransfers[i])
+//@   ensures yielded: (origin.Exception == nil ==> result.Exception == nil) && (origin.Exception != nil ==> result.Exception != nil && fresh(result.Exception) && *result.Exception == *origin.Exception)
+//@   ensures accounts: fresh(result.PartialState.ServiceAccounts) && allkeys(sid, result.PartialState.ServiceAccounts, c10_own(result.PartialState.ServiceAccounts[sid]))
+//@   ensures provided: fresh(result.ServiceBlobs) && allkeys(h, result.ServiceBlobs, fresh(result.ServiceBlobs[h].Blob) || len(result.ServiceBlobs[h].Blob) == 0)
+//@   ensures storage: result.StorageKeyVal != nil && fresh(result.StorageKeyVal) && len(*result.StorageKeyVal) == len(*origin.StorageKeyVal) && forall(i, 0, len(*origin.StorageKeyVal), fresh((*result.StorageKeyVal)[i].Value) && (*result.StorageKeyVal)[i].Key == (*origin.StorageKeyVal)[i].Key)
+//@   opt skipcover=1
+//@   loop rangeindex#0
+//@     invariant frame: frame_only() && rangeindex >= -1 && rangeindex < len(origin.DeferredTransfers) && len(copiedDeferredTransfers) == len(origin.DeferredTransfers) && fresh(copiedDeferredTransfers)
+//@     invariant copied: forall(i, 0, rangeindex+1, copiedDeferredTransfers[i] == origin.DeferredTransfers[i])
+//@     invariant accounts: fresh(copiedPartialState.ServiceAccounts) && allkeys(sid, copiedPartialState.ServiceAccounts, c10_own(copiedPartialState.ServiceAccounts[sid]))
+//@   loop #1
+//@     invariant frame: frame_only() && fresh(copiedServiceBlobs) && fresh(copiedDeferredTransfers) && len(copiedDeferredTransfers) == len(origin.DeferredTransfers)
+//@     invariant copied: forall(i, 0, len(origin.DeferredTransfers), copiedDeferredTransfers[i] == origin.DeferredTransfers[i])
+//@     invariant yielded: (origin.Exception == nil ==> copiedException == nil) && (origin.Exception != nil ==> copiedException != nil && fresh(copiedException) && *copiedException == *origin.Exception)
+//@     invariant accounts: fresh(copiedPartialState.ServiceAccounts) && allkeys(sid, copiedPartialState.ServiceAccounts, c10_own(copiedPartialState.ServiceAccounts[sid]))
+//@     invariant provided: allkeys(h, copiedServiceBlobs, fresh(copiedServiceBlobs[h].Blob) || len(copiedServiceBlobs[h].Blob) == 0)
